@@ -108,6 +108,68 @@ example : (Compound.unify unifySpec
       (Compound.print false) = some "a.x.y:is(.c):hover".toList := by
   decide
 
+/-- **`selector.unify` is sound on lists of compound selectors** (specification model): every
+complex selector of `selector.unify(A, B)` has both `A` and `B` as superselectors — the law of
+the property, as `selector.is-superselector` (C23's `SelSet.isSuper`) states it. -/
+theorem unify_sound_compound_lists (A B : List Compound)
+    (hp : ∀ a ∈ A, ∀ b ∈ B, a.pseudoElement.isSome = b.pseudoElement.isSome)
+    (hA : ∀ a ∈ A, a.onePe ∧ ∀ e, a.elem = some e → elemWf e = true)
+    (hB : ∀ b ∈ B, b.onePe ∧ ∀ e, b.elem = some e → elemWf e = true)
+    (c : Selector) (hc : c ∈ SelSet.unify unifySpec (A.map .leaf) (B.map .leaf)) :
+    SelSet.isSuper superSpec (A.map .leaf) [c] = true ∧ SelSet.isSuper superSpec (B.map .leaf) [c] = true := by
+  simp only [SelSet.unify, SelSet.unifyW, List.mem_flatMap, List.mem_map] at hc
+  obtain ⟨_, ⟨a, ha, rfl⟩, _, ⟨b, hb, rfl⟩, hc⟩ := hc
+  rw [Selector.unify_leaf] at hc
+  cases hu : Compound.unify unifySpec a b with
+  | none => simp [hu] at hc
+  | some u =>
+    simp only [hu, List.mem_singleton] at hc
+    subst hc
+    have hs := compound_unify_sound a b u (hp a ha b hb) (hA a ha).1 (hB b hb).1 (hA a ha).2 (hB b hb).2 hu
+    rw [← isSuper_leaf, ← isSuper_leaf] at hs
+    exact ⟨C23.super_trans _ [.leaf a] _
+        (C23.set_super_member superSpec _ (.leaf a) (List.mem_map.2 ⟨a, ha, rfl⟩)) hs.1,
+      C23.super_trans _ [.leaf b] _
+        (C23.set_super_member superSpec _ (.leaf b) (List.mem_map.2 ⟨b, hb, rfl⟩)) hs.2⟩
+
+/-- **Complex selector ∪ compound selector** (specification model): `selector.unify("… ca", "b")`
+unifies `b` into the rightmost compound; both inputs are superselectors of the result (in
+either argument order). -/
+theorem unify_sound_complex_compound (k : Rel) (s : Selector) (ca b : Compound)
+    (hpe : ca.pseudoElement.isSome = b.pseudoElement.isSome) (h1 : ca.onePe) (h2 : b.onePe)
+    (hwa : ∀ e, ca.elem = some e → elemWf e = true) (hwb : ∀ e, b.elem = some e → elemWf e = true)
+    (c : Selector)
+    (hc : c ∈ SelSet.unify unifySpec [.rel k s ca] [.leaf b] ∨ c ∈ SelSet.unify unifySpec [.leaf b] [.rel k s ca]) :
+    SelSet.isSuper superSpec [.rel k s ca] [c] = true ∧ SelSet.isSuper superSpec [.leaf b] [c] = true := by
+  have key : ∀ u, Compound.isSuper superSpec ca u = true → Compound.isSuper superSpec b u = true →
+      SelSet.isSuper superSpec [.rel k s ca] [.rel k s u] = true
+        ∧ SelSet.isSuper superSpec [.leaf b] [.rel k s u] = true := by
+    intro u hu1 hu2
+    exact ⟨isSuper_setLast superSpec k s ca u hu1, by rw [isSuper_leaf_any]; exact hu2⟩
+  rcases hc with hc | hc
+  · simp only [SelSet.unify, SelSet.unifyW, List.flatMap_cons, List.flatMap_nil, List.append_nil] at hc
+    rw [Selector.unify_rel_leaf] at hc
+    cases hu : Compound.unify unifySpec ca b with
+    | none => simp [hu] at hc
+    | some u =>
+      simp only [hu] at hc
+      split at hc
+      · simp at hc
+      · simp only [List.mem_singleton] at hc; subst hc
+        have hs := compound_unify_sound ca b u hpe h1 h2 hwa hwb hu
+        exact key u hs.1 hs.2
+  · simp only [SelSet.unify, SelSet.unifyW, List.flatMap_cons, List.flatMap_nil, List.append_nil] at hc
+    rw [Selector.unify_leaf_rel] at hc
+    cases hu : Compound.unify unifySpec b ca with
+    | none => simp [hu] at hc
+    | some u =>
+      simp only [hu] at hc
+      split at hc
+      · simp at hc
+      · simp only [List.mem_singleton] at hc; subst hc
+        have hs := compound_unify_sound b ca u hpe.symm h2 h1 hwb hwa hu
+        exact key u hs.2 hs.1
+
 /-- `:is(<classes>)` as a compound -/
 def isOf (cs : List String) : Compound :=
   .mk false none [] [] none [] [.mk "is".toList (.sel (cs.map fun c => .leaf (Compound.ofClass c))) false]
